@@ -251,7 +251,7 @@ def gen(tier, seed):
     for idx, (fl, r) in enumerate(configs(tier, seed)):
         shape, ranks = place(fl, r, idx)
         mode = MODES[(idx // 6 + idx) % 4]
-        sp = Spelling(seed=seed * 1000 + idx, rand_kinds={'rank'})
+        sp = Spelling(seed=seed * 1000 + idx, rand_kinds={'rank', 'paramorder'})
         laws = (idx % (4 if tier == 'quick' else 3) == 0)
         cfgid = f'{S.shape_id(shape)}/ranks={rid(r)}/{mode}'
         m = emit(f'm{n:04d}', cfgid, shape, ranks, mode, sp=sp, laws=laws)
